@@ -620,6 +620,10 @@ def c17(tier):
         S('reuse-compressed-then-plain', 'connection 1 negotiated permessage-deflate; connection 2\'s server does not: the reused object must behave like a fresh one '
           '(no RSV1, no stale compressor)', N1=1, N2=2, endings=['compressed-then-plain']),
     ]
+    specs.append(S('reuse-then-quiet-period', 'wall-clock effects: connection 1 ran with close_timeout=5 s armed (application close() pending, or plain EOF), then '
+                   'connection 2 on the same object receives %d symbolic bytes and sits through 8 s of silence (virtual clock; threading.Timer callbacks fire on the '
+                   'virtual clock during selector waits) before the server closes TCP: nothing armed by connection 1 may act on connection 2 (compared with a fresh object)'
+                   % (2 if q else 3), N1=1 if q else 2, N2=2 if q else 3, endings=['close-pending-timed', 'eof-timed']))
     PW = ('a WebSocket that reaches its server through a proxy is connected twice: the earlier attempt\'s outcome is a solver variable {tunnel + session, '
           'proxy answer cut by a socket error, cut by EOF, 407}; the second attempt must behave exactly as the C19 oracle demands of a first attempt: ')
     specs.append(Spec('proxied-reconnect-status', 'checks.proxy', 'run_proxy_as',
